@@ -103,14 +103,53 @@ func c22Join(t *testing.T, rep *vfReport, e *ssmEnv) {
 	}
 	e.hist = append(e.hist, "join")
 	rep.Count("op-join")
+	e.emit("join", got) // the model's `joinFrom`: newest snapshot + log suffix, nothing local
 	if got != want {
 		rep.Fail("joining-node-has-different-database", fmt.Sprintf("history %v: joiner has %q, leader's acknowledged state is %q", e.hist, got, want),
 			map[string]interface{}{"history": e.hist, "got": got, "want": want})
 	}
+	if got != want {
+		return
+	}
+	// the cluster now has two nodes: both apply the same entries. A load, an invalid load and a
+	// write through the leader must leave BOTH with the same table (the follower applies the
+	// LOAD entry itself).
+	follow := func(what string) {
+		want := e.want.String()
+		got := ""
+		for i := 0; i < 200; i++ {
+			if got = ssmQueryDump(s1); got == want && s1.AppliedIndex() >= e.s.AppliedIndex() {
+				break
+			}
+			time.Sleep(50 * time.Millisecond)
+		}
+		rep.Count("follower-checked-after-" + what)
+		e.emit("join", got)
+		if got != want {
+			rep.Fail("follower-has-different-database-after-"+what, fmt.Sprintf("history %v: follower has %q, leader's acknowledged state is %q", e.hist, got, want),
+				map[string]interface{}{"history": e.hist, "got": got, "want": want})
+			e.broken = true
+		}
+	}
+	e.load(e.genRows(), e.r.Bool())
+	e.dump("table-wrong-after-load-with-follower")
+	follow("load")
+	if e.broken {
+		return
+	}
+	e.loadBad(e.r.Intn(3))
+	e.dump("table-wrong-after-invalid-load-with-follower")
+	follow("invalid-load")
+	if e.broken {
+		return
+	}
+	e.exec(false, e.genStmts())
+	e.dump("table-wrong-after-write-with-follower")
+	follow("write")
 }
 
 func TestVerifC22(t *testing.T) {
-	rep := vfNewReport("C22", "generated histories on real single-node stores over {write requests (plain/transaction; put, insert, delete, add, failing statement), load of a generated database file (WAL- or DELETE-mode), SQL-text load, load of invalid data carrying the SQLite magic (garbage, truncated file, corrupt header), boot, snapshot with/without log truncation, restart (fast path or forced rebuild)}, then a second node joins; the table is checked after every step; non-trivial = at least one load/boot and at least one restart or invalid load; distinct by history text")
+	rep := vfNewReport("C22", "generated histories on real single-node stores over {write requests (plain/transaction; put, insert, delete, add, failing statement), load of a generated database file (WAL- or DELETE-mode), SQL-text load, load of invalid data carrying the SQLite magic (garbage, truncated file, corrupt header), boot, snapshot with/without log truncation, restart (fast path or forced rebuild)}, then (every second history) a second node joins and must hold the same table (also compared with the model's joinFrom), and a load, an invalid load and a write are then applied by both nodes and compared; the client-visible outcome of every load (ok / rejected) is compared with the model; the table is checked after every step; non-trivial = at least one load/boot and at least one restart or invalid load; distinct by history text")
 	defer rep.Write()
 	r := ssmRng(22)
 	n := vfScale(5, 60)
